@@ -249,6 +249,12 @@ package node
 // reinitialisation fails only if the file does not decode or a store / pool / hash step fails - never because one of
 // the replayed messages is refused (a recorded log contains re-delivered messages)
 //@   erroronly[C20.replay.tolerant] Unmarshal IsExist Marshal CalcStartReInitDKGMessageHash PutOperation GetFSMInstance Dump SaveFSM
+// the replayed messages are not signature-checked: they may only rebuild the round the reinitialisation names inside its
+// payload - the one that was checked to be unknown - and the rebuilt round is fetched and stored under that very
+// identifier, never under the one of the envelope (C09/C10: every existing round stays as it was; defect D19)
+//@   assert@call processMessage[C09.reinit.round,C10.reinit.round] arg0.DkgRoundID == loc(req).DKGID
+//@   assert@call GetFSMInstance[C09.reinit.round,C10.reinit.round] arg0 == loc(req).DKGID
+//@   assert@call SaveFSM[C09.reinit.round,C10.reinit.round] arg0 == loc(req).DKGID
 //@   ensures[C09.skip.restore,C10.skip.restore] s.SkipCommKeysVerification == old(s.SkipCommKeysVerification)
 //@   ensures $mayWrite
 //@   ensures unchanged("BaseNodeService.userName", "BaseNodeService.state", "BaseNodeService.storage", "BaseNodeService.ctx")
